@@ -390,6 +390,8 @@ class TokamakEquilibrium(Equilibrium):
             # Extend the array to outer-most psi on grid
             if pressure is not None:
                 dpdpsi = (pressure[-1] - pressure[-2]) / (psi1D[-1] - psi1D[-2])
+                # psi at the plasma edge (last point of the input profile)
+                psi_edge = psi1D[-1]
 
             if self.psi_increasing:
                 psi_outer = max(
@@ -415,7 +417,9 @@ class TokamakEquilibrium(Equilibrium):
                 # the value and gradient at the plasma edge
                 p0 = pressure[-1]
                 # p = p0 * exp( (psi - psi0) * dpdpsi / p0)
-                pressure = np.concatenate([pressure, p0 * np.exp(psiSOL * dpdpsi / p0)])
+                pressure = np.concatenate(
+                    [pressure, p0 * np.exp((psiSOL - psi_edge) * dpdpsi / p0)]
+                )
 
         self.magneticFunctionsFromGrid(
             R1D, Z1D, psi2D, self.user_options.psi_interpolation_method
